@@ -595,7 +595,7 @@ Proof.
     rewrite Ee1, Es, Ef in HX.
     destruct (seg st) as [sg|] eqn:Esg; [destruct (iou_act (ft st)) eqn:Eact|]; subst X; try (apply (obs_saved _ _ _ _ Hk Hup Hno)).
     destruct (Z.eq_dec k KIou) as [->|Hne].
-    + rewrite lookup_set_eq. rewrite (Hio sg eq_refl Eact).
+    + rewrite lookup_set_eq. unfold d. rewrite (Hio sg Esg Eact).
       replace (iou_of st1 sg u v) with (iou_of st sg u v); [reflexivity|].
       unfold iou_of, time_of, zattr, attr, node_attrs. now rewrite En.
     + rewrite lookup_set_neq by exact Hne. apply (obs_saved _ _ _ _ Hk Hup Hno).
